@@ -87,6 +87,15 @@ class World(BaseWorld):
                             'seq': [ro.choice('fr') for _ in range(ro.randrange(1, 4))],
                             'layout': ro.choice(['C', 'C', 'C', 'F', 'T', 'block']),
                             'typenames': ro.choice(['letters', 'letters', 'int_perm', 'int_rev', 'words'])})
+                # the user may re-bind M.data between two transforms (plain assignment, as PRISM.cost does with GammaIn.data): token 'b'.
+                # Drawn from its own stream so that the rest of the generated history is what it was before this token existed.
+                rb = st.get('ma_rebind')
+                if rb.random() < 0.4:
+                    sq = ops[-1]['seq']
+                    at = rb.randrange(1, len(sq) + 1)
+                    sq.insert(at, 'b')
+                    if at == len(sq) - 1:
+                        sq.append(rb.choice('fr'))
             elif k == 'matrix':
                 ops.append({'op': k})
             if k == 'ma' and ro.random() < 0.25:
@@ -327,6 +336,13 @@ class World(BaseWorld):
                 space = op['space']
                 cur = np.copy(data)
                 for t in op['seq']:
+                    if t == 'b':
+                        fresh = rs.uniform(-1, 1, size=(N, rk, rk))
+                        fresh = (fresh + np.transpose(fresh, (0, 2, 1))) / 2.0
+                        M.data = np.copy(fresh)
+                        cur = np.copy(fresh)
+                        ctx.probe('ma_data_rebound_between_transforms')
+                        continue
                     target = 'Fourier' if t == 'f' else 'Real'
                     fn = d.MatrixArray_to_fourier if t == 'f' else d.MatrixArray_to_real
                     one = d.to_fourier if t == 'f' else d.to_real
@@ -371,13 +387,13 @@ class World(BaseWorld):
     def expected_probes(self, tier):
         return ['dk_ctor', 'dr_ctor', 'length_set_after_dk', 'length_set_after_dr', 'nonpow2', 'decimal_spacing', 'refused_transform',
                 'two_setter_kinds', 'roundtrip', 'linearity', 'sine_matrix_oracle', 'ma_to_fourier', 'ma_to_real', 'ma_integer_type_names',
-                'ma_data_layout_F', 'ma_data_layout_T', 'ma_data_layout_block', 'spacing_nudged', 'failed_transform_left_array_alone', 'roundtrip_dtype_int64', 'roundtrip_dtype_bool', 'roundtrip_dtype_float32']
+                'ma_data_layout_F', 'ma_data_layout_T', 'ma_data_layout_block', 'spacing_nudged', 'failed_transform_left_array_alone', 'roundtrip_dtype_int64', 'roundtrip_dtype_bool', 'roundtrip_dtype_float32', 'ma_data_rebound_between_transforms']
 
     def rule(self):
         return ('Each run = one seed -> construct(length in 1..300 incl. primes and 2^k+-1, or 512..4096; via dr or dk; spacing log-uniform '
                 '1e-3..2 or a "decimal" value users type) + 1-9 ops over {set dr, set dk, set length, re-construct, roundtrip(noise|smooth|spike|const), '
                 'MatrixArray transforms on user data of any memory layout (C, Fortran, transposed stack, block slice) and type names (letters, words, integer permutations), '
-                'linearity, explicit sine-matrix oracle (N<=256), MatrixArray transform sequences rank 1-4 incl. repeats}. After every op: '
+                'linearity, explicit sine-matrix oracle (N<=256), MatrixArray transform sequences rank 1-4 incl. repeats and re-binding of .data between transforms}. After every op: '
                 'len(r)=len(k)=length, r_i=(i+1)dr, k_j=(j+1)dk, setter took effect, dr*dk*length=pi, r/k/dk/long_r and both transforms equal '
                 'those of a fresh Domain(length, dr). Non-trivial: a transform oracle ran after >= 2 setter calls of different kinds. '
                 'Distinct: run digests.')
